@@ -11,7 +11,8 @@ prop(
     level_note="Validation is detected on the wire from unprotected long-header fields (type bits, Length), which can only delay the monitor's notion of 'validated', never hasten it. "
     "The resumption clause (sending resumes when more is received) is observed as handshake completion in the heavy-loss classes, not timed.",
     design_ref="DESIGN.md §3 C15",
-    legs=[dict(name="sim", crate="l2", sub="c15", shards={Q: 16, T: 16}, budget={Q: 12, T: 200}, timeout={Q: 900, T: 7200})],
+    legs=[dict(name="sim", crate="l2", sub="c15", shards={Q: 16, T: 16}, budget={Q: 12, T: 200}, timeout={Q: 900, T: 7200}),
+          dict(name="asan", kind="asan", crate="l2", sub="c15", tiers=(T,), budget={T: 8}, timeout=5400, mandatory=False)],
     floors={Q: {"server_sends_checked_before_validation": 300, "scenarios_never_validated": 15, "scenarios_reaching_validation": 15, "sets.classes": 5, "resumption_scenarios": 8}},
     assumptions=["bytes are counted per UDP datagram at the simulated wire"],
 )
